@@ -592,6 +592,66 @@ func main() {
 		}})
 	}
 
+	{
+		// key look-ups that fail: keys whose (kty, alg, crv) has no registered implementation.  Each call gets an error of
+		// its own that names *its* key and operation, and keeps saying so while other look-ups fail elsewhere.
+		unreg := []key.Key{
+			{iana.KeyParameterKty: iana.KeyTypeOKP, iana.OKPKeyParameterCrv: iana.EllipticCurveEd448, iana.KeyParameterKid: []byte("ed448")},
+			{iana.KeyParameterKty: iana.KeyTypeEC2, iana.EC2KeyParameterCrv: iana.EllipticCurveSecp256k1, iana.KeyParameterKid: []byte("k256")},
+			{iana.KeyParameterKty: iana.KeyTypeSymmetric, iana.KeyParameterAlg: -70000, iana.KeyParameterKid: []byte("private-use")},
+			{iana.KeyParameterKty: iana.KeyTypeRSA, iana.KeyParameterAlg: iana.AlgorithmPS256, iana.KeyParameterKid: []byte("rsa")},
+		}
+		lookup := func(k key.Key, op int) error {
+			var err error
+			switch op {
+			case 0:
+				_, err = k.Signer()
+			case 1:
+				_, err = k.Verifier()
+			case 2:
+				_, err = k.MACer()
+			default:
+				_, err = k.Encryptor()
+			}
+			return err
+		}
+		var want [4][4]string
+		for ki, k := range unreg {
+			for op := 0; op < 4; op++ {
+				e := lookup(k, op)
+				if e == nil {
+					fmt.Printf("MISMATCH task=Lookup/unregistered setup: an implementation for key %d op %d\n", ki, op)
+					os.Exit(1)
+				}
+				want[ki][op] = e.Error()
+			}
+		}
+		for ki := range unreg {
+			for op := 0; op < 4; op++ {
+				if e := lookup(unreg[ki], op); e == nil || e.Error() != want[ki][op] {
+					fmt.Printf("MISMATCH task=Lookup/unregistered setup: the error of a failed look-up is not a function of key and operation (key %d op %d)\n", ki, op)
+					os.Exit(1)
+				}
+			}
+		}
+		tasks = append(tasks, task{"Lookup/unregistered", func(i int) []byte {
+			ki, op := i%4, (i/4)%4
+			e1 := lookup(unreg[ki], op)
+			if e1 == nil {
+				return []byte("FAIL: implementation for an unregistered key")
+			}
+			first := e1.Error()
+			e2 := lookup(unreg[(ki+1)%4], (op+1)%4) // another failing look-up while the first error is still held
+			if e2 == nil {
+				return []byte("FAIL: implementation for an unregistered key")
+			}
+			if first != want[ki][op] || e1.Error() != want[ki][op] || e2.Error() != want[(ki+1)%4][(op+1)%4] {
+				return []byte(fmt.Sprintf("FAIL: error of look-up (key %d, op %d) reads %q / %q, alone it reads %q", ki, op, first, e1.Error(), want[ki][op]))
+			}
+			return []byte("ok")
+		}})
+	}
+
 	if *onlyFlag != "" {
 		var keep []task
 		for _, t := range tasks {
